@@ -709,6 +709,16 @@ pub fn check_shape<P: TP, V: Val>(side: &Side<P, V>, env: &mut Env) -> R<Shape> 
 /// C16: every slot is reachable xor free; bounded arena.
 pub fn check_arena<P: TP, V: Val>(side: &mut Side<P, V>, env: &mut Env) -> R {
     let a = side.map.verif_arena();
+    let emptied = side.canonical && side.model.m.is_empty();
+    check_arena_raw(a, &mut side.peak_nodes, emptied, side.name, env)
+}
+
+/// The arena oracle on a snapshot (maps and sets).
+pub fn check_arena_raw(a: prefix_trie::map::VerifArena, peak_nodes: &mut usize, emptied_by_remove: bool, name: &str, env: &mut Env) -> R {
+    struct S<'x> {
+        name: &'x str,
+    }
+    let side = S { name };
     let n = a.arena_len;
     ensure!(n >= 1, "C16", "C16:arena-empty", "arena has no root slot");
     // depth-first walk with colours: 0 = unseen, 1 = on the current path, 2 = done
@@ -797,19 +807,19 @@ pub fn check_arena<P: TP, V: Val>(side: &mut Side<P, V>, env: &mut Env) -> R {
             a.free.len()
         );
     }
-    if nreach > side.peak_nodes {
-        side.peak_nodes = nreach;
+    if nreach > *peak_nodes {
+        *peak_nodes = nreach;
     }
     ensure!(
-        n <= 2 * side.peak_nodes + 1,
+        n <= 2 * *peak_nodes + 1,
         "C16",
         "C16:arena-bound",
         "step {}: arena length {} exceeds 2 * peak node count {} + 1",
         env.step,
         n,
-        side.peak_nodes
+        *peak_nodes
     );
-    if side.canonical && side.model.m.is_empty() {
+    if emptied_by_remove {
         ensure!(
             nreach == 1,
             "C16",
